@@ -1,5 +1,5 @@
 """C18: IUPAC alphabet, Search, Match (spec/Alphabet.tla)."""
-from fam_generic import Family, run_family
+from fam_generic import Family, run_family, run_families
 
 
 def M(mode, maxseq, maxq, stride, mc=True):
@@ -7,7 +7,7 @@ def M(mode, maxseq, maxq, stride, mc=True):
 
 
 FAM = Family(
-    "alpha", "MC_Alpha", "Trace_Alpha", "alpha", devs='{"MatchK"}',
+    "alpha", "MC_Alpha", "Trace_Alpha", "alpha", devs='{"MatchK"}', case_fam=("scan", "tables"),
     rounds={"quick": [M("tables", 1, 1, 1), M("scan", 4, 2, 1, mc=False)],
             "thorough": [M("tables", 1, 1, 1), M("scan", 6, 3, 1, mc=False)]},
     rule_text=("tables: all 256 bytes through Complement/Transcribe and the full query-letter x sequence-letter matrix "
@@ -17,5 +17,19 @@ FAM = Family(
 )
 
 
+def CS(maxseq, maxq, stride=1):
+    return dict(consts=dict(MaxSeq=maxseq, MaxQ=maxq, Batch=40, Stride=stride, Offset=0), mc=False)
+
+
+CLI = Family(
+    "clisearch", "MC_AlphaCli", "Trace_AlphaCli", "cli", devs=False, invariant=None, needs_gts=True, case_fam="clisearch",
+    rounds={"quick": [CS(3, 3)], "thorough": [CS(5, 4)]},
+    rule_text=("command-line clause: every record over {a,c,g,t} of 1..MaxSeq residues x every query over {a,c,n} (plus upper "
+               "case and g,t) of 1..MaxQ letters x -e x --no-complement; `gts search` of the binary built from the tree is run "
+               "on a one-record GenBank file; the added features must be exactly SearchAll / MatchScan of the query on the "
+               "forward strand and on the reverse complement (as complement locations), each once"),
+)
+
+
 def run(prop, tier, seed, replay=None):
-    return run_family(FAM, prop, tier, seed, replay)
+    return run_families([FAM, CLI], prop, tier, seed, replay)
